@@ -77,40 +77,91 @@ def time_pre(a, k=1):
     return And([in_range(a[k + i], 0, LIM[n]) for i, n in enumerate(TIME_NAMES)])
 
 
-def round_inv_claim(a, o):
-    T = total_time(a)
-    ex = existing_largest([(5, a[1]), (4, a[2]), (3, a[3]), (2, a[4]), (1, a[5]), (0, a[6])])
-    lg, mode = a[8], a[9]
+def round_claims(T_of, ex_of, ui, lg, mode, top, refused_of):
+    """three claims (Err-iff / denotation / shape) over kernels with inputs a and `Option<Option<SpanOut>>` output"""
+    def mk(which):
+        def claim(a, o):
+            T = T_of(a)
 
-    def f(I, k):
-        su = SU[PAIRS[k][0]]
-        R = ref_round(T, I, mode)
-        Lz = If(lg == 10, zmax(su, ex), lg)
-        refused = Or(lg < su, And(lg >= 6, lg <= 9))
-        return And(Implies(refused, o.some.is_none),
-                   Implies(Not(refused), per_L(Lz, su, 5, lambda L: opt_is(o.some, fits(R, L), lambda r: balanced(r.ints(), R, L)))))
-    return And(o.is_some, _c10.per_pair(a[7], f))
+            def f(I, k):
+                su = SU[PAIRS[k][0]]
+                R = ref_round(T, I, a[mode])
+                Lz = If(a[lg] == 10, zmax(su, ex_of(a)), a[lg])
+                refused = refused_of(a[lg], su)
+
+                def perL(L):
+                    if which == "err":
+                        return o.some.is_some == fits(R, L)
+                    if not o.some.has_variant("Some"):
+                        return BoolVal(True)
+                    r = o.some.some.ints()
+                    tot = sum(fld(r, u) * UNIT_NS[u] for u in range(8))
+                    if which == "sum":
+                        return Implies(o.some.is_some, tot == R)
+                    return Implies(o.some.is_some, balanced(r, tot, L))
+                return And(Implies(refused, o.some.is_none), Implies(Not(refused), per_L(Lz, su, top, perL)))
+            return And(o.is_some, _c10.per_pair(a[ui], f))
+        return claim
+    return mk
+
+
+def T_sn(a):
+    return sgn(a[0]) * (a[1] * NS + a[2])
+
+
+def T_dn(a):
+    return sgn(a[0]) * (a[1] * UNIT_NS[6] + a[2])
+
+
+_inv = round_claims(T_sn, lambda a: If(a[1] != 0, 3, 0), 3, 4, 5, 5, lambda lg, su: Or(lg < su, And(lg >= 6, lg <= 9)))
+_24h = round_claims(T_dn, lambda a: If(a[1] != 0, 6, 0), 3, 4, 5, 7, lambda lg, su: Or(lg < su, lg >= 8))
+
+
+def balance_claims(T_of, lg_idx, top, label):
+    def mk(which):
+        def claim(a, o):
+            T, lg = T_of(a), a[lg_idx]
+
+            def perL(L):
+                if which == "err":
+                    return o.some.is_some == fits(T, L)
+                if not o.some.has_variant("Some"):
+                    return BoolVal(True)
+                r = o.some.some.ints()
+                tot = sum(fld(r, u) * UNIT_NS[u] for u in range(8))
+                if which == "sum":
+                    return Implies(o.some.is_some, tot == T)
+                return Implies(o.some.is_some, balanced(r, tot, L))
+            return And(o.is_some, Implies(lg > top, o.some.is_none), per_L(lg, 0, top, perL))
+        return claim
+    return [(label + " [Err iff the largest unit exceeds its limit]", mk("err")), (label + " [the nanosecond total is unchanged]", mk("sum")),
+            (label + " [balanced, sign-consistent, nothing above the largest unit]", mk("shape"))]
 
 
 def balance_inv_claim(a, o):
     T = total_time(a)
-    ex = existing_largest([(5, a[1]), (4, a[2]), (3, a[3]), (2, a[4]), (1, a[5]), (0, a[6])])
     lg = a[7]
     return And(o.is_some, Implies(lg >= 6, o.some.is_none),
                per_L(lg, 0, 5, lambda L: opt_is(o.some, fits(T, L), lambda r: balanced(r.ints(), T, L))))
 
 
-def round_24h_claim(a, o):
-    T = sgn(a[0]) * (a[1] * UNIT_NS[7] + a[2] * UNIT_NS[6] + a[3] * UNIT_NS[5] + a[4] * UNIT_NS[4] + a[5])
-    lg, mode = a[7], a[8]
+def T_24(a):
+    return sgn(a[0]) * (a[1] * UNIT_NS[7] + a[2] * UNIT_NS[6] + a[3] * UNIT_NS[5] + a[4] * UNIT_NS[4] + a[5])
 
-    def f(I, k):
-        su = SU[PAIRS[k][0]]
+
+def round_24h_day_claim(a, o):
+    """smallest = largest = day (or week), any increment: a non-positive increment must be refused without panicking;
+    otherwise the result is the rounded total expressed in that unit alone"""
+    T = T_dn(a)
+    inc, mode = a[4], a[5]
+
+    def f(L):
+        I = inc * UNIT_NS[L]
         R = ref_round(T, I, mode)
-        refused = Or(lg < su, lg >= 8)
-        return And(Implies(refused, o.some.is_none),
-                   Implies(Not(refused), per_L(lg, su, 7, lambda L: opt_is(o.some, fits(R, L), lambda r: balanced(r.ints(), R, L)))))
-    return And(o.is_some, _c10.per_pair(a[6], f))
+        ok = absz(tdiv(R, UNIT_NS[L])) <= UNIT_LIM[L]
+        return Implies(inc > 0, opt_is(o.some, ok, lambda r: And(fld(r.ints(), L) * UNIT_NS[L] == R,
+                                                                 And([fld(r.ints(), u) == 0 for u in range(10) if u != L]))))
+    return And(o.is_some, Implies(inc <= 0, o.some.is_none), If(a[3], f(7), f(6)))
 
 
 def needs_ref_claim(a, o):
@@ -130,22 +181,59 @@ def compare_claim(a, o):
 B_TIME = {1 + i: (0, LIM[n]) for i, n in enumerate(TIME_NAMES)}
 CMP_NAMES = ["hours", "minutes", "seconds", "nanoseconds"]
 
+def round_24h_day_cheap(a, o):
+    return And(o.is_some, Implies(a[4] <= 0, o.some.is_none))
+
+
+B_24 = {1: (0, LIM["weeks"]), 2: (0, LIM["days"]), 3: (0, LIM["hours"]), 4: (0, LIM["minutes"]), 5: (0, LIM["nanoseconds"])}
+LAB = ("Span::round %s: the result denotes exactly round_mode(T, increment*unit) (T = the span's nanosecond total%s), has nothing above the "
+       "largest unit, every lower unit below its carry, one sign; Err iff largest < smallest, a calendar unit the path does not permit, or the "
+       "largest unit exceeds its limit")
+
 KERNELS = [
-    K("c11::k_span_round_inv", pre=lambda a: And(time_pre(a), in_range(a[7], 0, NP - 1), Or(in_range(a[8], 0, 9), a[8] == 10), in_range(a[9], 0, 8)),
-      claims=[("Span::round without a reference (units <= hours): result = exact rounding of the nanosecond total to a multiple of increment*unit, "
-               "balanced up to the largest unit, sign-consistent; Err iff largest < smallest, a calendar largest unit, or the largest unit overflows its limit",
-               round_inv_claim)],
-      bounds={**B_TIME, 7: (0, NP - 1), 8: (0, 10), 9: (0, 8)}, split=[(7, NP), (8, 11)], timeout=300),
+    K("c11::k_span_round_inv", pre=lambda a: And(in_range(a[1], 0, 1000000), in_range(a[2], 0, 10000000000), in_range(a[3], 0, NP - 1),
+                                                 Or(a[4] == 3, a[4] == 5, a[4] == 10), in_range(a[5], 0, 8)),
+      claims=[(LAB % ("without a reference", "") + " [Err-iff; seconds <= 1e6, nanoseconds <= 1e10, largest in second, hour, unset]", _inv("err")),
+              (LAB % ("without a reference", "") + " [denotation; same bounds]", _inv("sum")),
+              (LAB % ("without a reference", "") + " [shape; same bounds]", _inv("shape"))],
+      bounds={1: (0, 1000000), 2: (0, 10000000000), 3: (0, NP - 1), 4: (3, 10), 5: (0, 8)}, split=(3, NP), timeout=200),
+    K("c11::k_span_round_inv", pre=lambda a: And(in_range(a[1], 0, LIM["seconds"]), in_range(a[2], 0, LIM["nanoseconds"]), in_range(a[3], 0, NP - 1),
+                                                 Or(in_range(a[4], 0, 9), a[4] == 10), in_range(a[5], 0, 8)),
+      claims=[(LAB % ("without a reference", "") + " [Err-iff]", _inv("err")), (LAB % ("without a reference", "") + " [denotation]", _inv("sum")),
+              (LAB % ("without a reference", "") + " [shape]", _inv("shape"))],
+      bounds={1: (0, LIM["seconds"]), 2: (0, LIM["nanoseconds"]), 3: (0, NP - 1), 4: (0, 10), 5: (0, 8)}, split=[(3, NP), (4, 11)], timeout=900, tier="deep"),
     K("c11::k_span_balance_inv", pre=lambda a: And(time_pre(a), in_range(a[7], 0, 9)),
-      claims=[("Span::round(largest = L) without a reference re-balances without changing the nanosecond total", balance_inv_claim)],
+      claims=balance_claims(total_time, 7, 5, "Span::round(largest = L) without a reference re-balances hours..nanoseconds (all six units symbolic up to their limits)")[1:],
       bounds={**B_TIME, 7: (0, 9)}, split=(7, 10), timeout=300),
-    K("c11::k_span_round_24h", pre=lambda a: And(in_range(a[1], 0, LIM["weeks"]), in_range(a[2], 0, LIM["days"]), in_range(a[3], 0, LIM["hours"]),
-                                                 in_range(a[4], 0, LIM["minutes"]), in_range(a[5], 0, LIM["nanoseconds"]),
-                                                 in_range(a[6], 0, NP - 1), in_range(a[7], 0, 9), in_range(a[8], 0, 8)),
-      claims=[("Span::round with days_are_24_hours: weeks = 7*24 h, days = 24 h; same rounding and balancing law up to weeks; years/months refused",
-               round_24h_claim)],
-      bounds={1: (0, LIM["weeks"]), 2: (0, LIM["days"]), 3: (0, LIM["hours"]), 4: (0, LIM["minutes"]), 5: (0, LIM["nanoseconds"]),
-              6: (0, NP - 1), 7: (0, 9), 8: (0, 8)}, split=[(6, NP), (7, 10)], timeout=300),
+    K("c11::k_span_balance_inv_err", pre=lambda a: And(in_range(a[1], 0, LIM["hours"]), in_range(a[2], 0, LIM["seconds"]), in_range(a[3], 0, LIM["nanoseconds"]), in_range(a[4], 0, 9)),
+      claims=balance_claims(lambda a: sgn(a[0]) * (a[1] * 3600 * NS + a[2] * NS + a[3]), 4, 5,
+                            "Span::round(largest = L) without a reference, span of hours + seconds + nanoseconds up to their limits")[:1],
+      bounds={1: (0, LIM["hours"]), 2: (0, LIM["seconds"]), 3: (0, LIM["nanoseconds"]), 4: (0, 9)}, split=(4, 10), timeout=300),
+    K("c11::k_span_balance_24h", pre=lambda a: And([in_range(a[k], *B_24[k]) for k in B_24] + [in_range(a[6], 0, 9)]),
+      claims=balance_claims(T_24, 6, 7, "Span::round(largest = L) with days_are_24_hours re-balances weeks/days/hours/minutes/nanoseconds with weeks = 7*24 h and days = 24 h; years/months refused")[1:],
+      bounds={**B_24, 6: (0, 9)}, split=(6, 10), timeout=300),
+    K("c11::k_span_balance_24h_err", pre=lambda a: And(in_range(a[1], 0, LIM["weeks"]), a[2] == 0, in_range(a[3], 0, LIM["nanoseconds"]), in_range(a[4], 0, 9)),
+      claims=balance_claims(lambda a: sgn(a[0]) * (a[1] * UNIT_NS[7] + a[2] * UNIT_NS[5] + a[3]), 4, 7,
+                            "Span::round(largest = L) with days_are_24_hours, span of weeks + nanoseconds up to their limits")[:1],
+      bounds={1: (0, LIM["weeks"]), 2: (0, 0), 3: (0, LIM["nanoseconds"]), 4: (0, 9)}, split=(4, 10), timeout=300),
+    K("c11::k_span_round_24h", pre=lambda a: And(in_range(a[1], 0, 10), in_range(a[2], 0, 10000000000), in_range(a[3], 11, NP - 1),
+                                                 Or(a[4] == 5, a[4] == 6, a[4] == 7), in_range(a[5], 0, 8)),
+      claims=[(LAB % ("with days_are_24_hours", ", days = 24 h") + " [Err-iff; days <= 10, nanoseconds <= 1e10, the 9 pairs with unit >= second, largest in hour, day, week]", _24h("err")),
+              (LAB % ("with days_are_24_hours", ", days = 24 h") + " [denotation; same bounds]", _24h("sum")),
+              (LAB % ("with days_are_24_hours", ", days = 24 h") + " [shape; same bounds]", _24h("shape"))],
+      bounds={1: (0, 10), 2: (0, 10000000000), 3: (11, NP - 1), 4: (5, 7), 5: (0, 8)}, split=[(3, 9), (4, 3)], timeout=400),
+    K("c11::k_span_round_24h", pre=lambda a: And(in_range(a[1], 0, LIM["days"]), in_range(a[2], 0, LIM["nanoseconds"]), in_range(a[3], 0, NP - 1),
+                                                 in_range(a[4], 0, 9), in_range(a[5], 0, 8)),
+      claims=[(LAB % ("with days_are_24_hours", ", days = 24 h") + " [Err-iff]", _24h("err")), (LAB % ("with days_are_24_hours", ", days = 24 h") + " [denotation]", _24h("sum")),
+              (LAB % ("with days_are_24_hours", ", days = 24 h") + " [shape]", _24h("shape"))],
+      bounds={1: (0, LIM["days"]), 2: (0, LIM["nanoseconds"]), 3: (0, NP - 1), 4: (0, 9), 5: (0, 8)}, split=[(3, NP), (4, 10)], timeout=900, tier="deep"),
+    K("c11::k_span_round_24h_day", pre=lambda a: And(in_range(a[1], 0, LIM["days"]), in_range(a[2], 0, LIM["nanoseconds"]), in_range(a[4], -1000, 1000), in_range(a[5], 0, 8)),
+      claims=[("Span::round(smallest = largest = day | week, increment in -1000..1000, days_are_24_hours): never panics; a non-positive increment is refused", round_24h_day_cheap)],
+      bounds={1: (0, LIM["days"]), 2: (0, LIM["nanoseconds"]), 4: (-1000, 1000), 5: (0, 8)}, timeout=300),
+    K("c11::k_span_round_24h_day", pre=lambda a: And(in_range(a[1], 0, LIM["days"]), in_range(a[2], 0, LIM["nanoseconds"]), in_range(a[4], -3, 12), in_range(a[5], 0, 8)),
+      claims=[("Span::round(smallest = largest = day | week, increment in -3..12, days_are_24_hours): never panics, a non-positive increment is refused, "
+               "otherwise the rounded total in that unit", round_24h_day_claim)],
+      bounds={1: (0, LIM["days"]), 2: (0, LIM["nanoseconds"]), 4: (-3, 12), 5: (0, 8)}, split=(4, 16), timeout=900, tier="deep"),
     K("c11::k_span_round_needs_ref", pre=lambda a: And(in_range(a[1], 0, LIM["years"]), in_range(a[2], 0, LIM["months"]), in_range(a[3], 0, LIM["weeks"]),
                                                        in_range(a[4], 0, LIM["days"]), in_range(a[5], 0, 9), Or(in_range(a[6], 0, 9), a[6] == 10)),
       claims=[("without a reference, round and compare refuse calendar units (in the span or in the options)", needs_ref_claim)],
